@@ -21,6 +21,7 @@ import ast
 from typing import Dict, List, Optional, Tuple
 
 from engines import asyncfacts as af
+from engines import inline
 from engines import pyfacts as pf
 from engines.common import AnalysisError, Ctx
 
@@ -42,6 +43,7 @@ CLS = 'TimeLimitedMaxSizeCache'
 MAPS = ('self._cache', 'self._expiry_time', 'self._keys_by_expiry')
 FUT = 'self._futures'
 CLOCK_OK = ('time.monotonic_ns',)
+PRIMS = ('_put', '_remove', '_evict_oldest', '_over_capacity', 'shutdown', '__init__')
 
 
 def _map_writes(m: pf.Module, fn: pf.FuncDef) -> List[Tuple[str, str, str, ast.AST]]:
@@ -159,11 +161,13 @@ def _r1_capacity(ctx: Ctx, m: pf.Module, cls: ast.ClassDef) -> None:
     lk = af.method(m, cls, 'lookup')
     cfg = pf.cfg(lk)
     puts = af.stmt_nodes(cfg, lambda n: af.node_is_call(n, 'self._put') is not None)
-    ctx.need(puts, 'lookup never calls _put')
-    allputs = [c for st in cls.body if isinstance(st, (ast.FunctionDef, ast.AsyncFunctionDef)) for c in pf.calls_in(st, True) if pf.dotted(c.func) == 'self._put']
-    ctx.need(len(allputs) == len(puts), '_put is called outside lookup (not analysed)')
+    ctx.need(puts, 'lookup never calls _put (directly or through an inlinable helper)')
+    _capacity_after_puts(ctx, m, 'lookup', cfg, puts)
+
+
+def _capacity_after_puts(ctx: Ctx, m: pf.Module, fname: str, cfg: pf.CFG, puts: List[pf.Node]) -> None:
     for P in puts:
-        cons = f'{F}::{CLS}.lookup::{P.text()}'
+        cons = f'{F}::{CLS}.{fname}::{P.text()}'
         tests = [t for t in cfg.nodes if t.kind == 'test' and af.mentions(t.ast, 'self._over_capacity()')]
         evs = af.stmt_nodes(cfg, lambda n: af.node_is_call(n, 'self._evict_oldest') is not None)
         verdict = None
@@ -181,6 +185,101 @@ def _r1_capacity(ctx: Ctx, m: pf.Module, cls: ast.ClassDef) -> None:
         aw = [x for x in region if pf.node_has_await(x)]
         ctx.check(not aw, 'R1', cons, f'`{aw[0].text() if aw else ""}` suspends between the insertion and the eviction: other lookups observe (and add to) an '
                   f'over-full cache', m.path, P.lineno, detail={'test': pf.nsrc(verdict[0].ast)})
+
+
+def _only_from_lookup(m: pf.Module, name: str, il, seen: Tuple[str, ...] = ()) -> bool:
+    """every call site of method `name` (original class) lies in lookup or in a method that is itself only called from lookup, and the
+    inliner expanded all of them: the method has no behaviour of its own beyond what the inlined lookup shows."""
+    if name in seen or name in {n for n, _, _ in il.skipped} or name in PRIMS:
+        return False
+    funcs = [(q, fn) for q, fn in m.functions() if q.startswith(CLS + '.')]
+    ss = [(q, c) for q, fn in funcs for c in ast.walk(fn) if isinstance(c, ast.Attribute) and pf.nsrc(c) == f'self.{name}' and m.enclosing_func(c) is fn]
+    if not ss:
+        return False
+    for q, _ in ss:
+        parts = q.split('.')
+        if len(parts) != 2:
+            return False
+        if parts[1] == 'lookup':
+            continue
+        if not _only_from_lookup(m, parts[1], il, seen + (name,)):
+            return False
+    return True
+
+
+def _r1_put_callers(ctx: Ctx, m: pf.Module, cls: ast.ClassDef, il) -> None:
+    """who-may-call `_put`: `_keys_by_expiry.add(k)` is a no-op for a key that is already filed, which would stay filed under its old expiry
+    (SortedSet caches the key function's value).  `_put` is therefore only sound where the key is absent from the index: on lookup's loader
+    path (absent at the miss decision, single flight keeps it absent), or right after removing it."""
+    put = af.method(m, cls, '_put')
+    kp = put.args.args[1].arg
+    pcfg = pf.cfg(put)
+    adds = af.stmt_nodes(pcfg, lambda n: af.node_is_call(n, 'self._keys_by_expiry.add') is not None)
+    ctx.need(len(adds) == 1, '_put: index insertion not found')
+
+    def removes_first(cfg: pf.CFG, node: pf.Node, key: str) -> bool:
+        """Forward must-analysis: on every path to `node` the last relevant event is `self._remove(key)` or the absent edge of a
+        membership test of `key` in one of the three maps, with no suspension and no insertion afterwards."""
+        def is_rm(n: pf.Node) -> bool:
+            c = af.node_is_call(n, 'self._remove')
+            return c is not None and [pf.nsrc(a) for a in c.args] == [key]
+        preds: Dict[int, List[Tuple[pf.Node, str]]] = {}
+        for a in cfg.nodes:
+            for b, lab in a.succ:
+                preds.setdefault(b.id, []).append((a, lab))
+        out: Dict[int, bool] = {n.id: True for n in cfg.nodes}  # optimistic start, greatest fixpoint
+        out[cfg.entry.id] = False
+
+        def edge_val(a: pf.Node, lab: str) -> bool:
+            if a.kind == 'test' and lab in ('T', 'F') and any(af.implied_on_edge(a.ast, lab, f'{key} in {mp}', False) for mp in MAPS):
+                return True
+            return out[a.id]
+        changed = True
+        while changed:
+            changed = False
+            for n in cfg.nodes:
+                if n is cfg.entry:
+                    continue
+                ps = preds.get(n.id, [])
+                inn = bool(ps) and all(edge_val(a, lab) for a, lab in ps)
+                if is_rm(n):
+                    v = True
+                elif pf.node_has_await(n) or (n.ast is not None and n.kind != 'test' and any(pf.dotted(c.func) == 'self._put' for c in pf.node_calls(n))):
+                    v = False
+                else:
+                    v = inn
+                if n is node:
+                    v = inn  # the state in which the insertion itself runs
+                if v != out[n.id]:
+                    out[n.id] = v
+                    changed = True
+        return out[node.id]
+    self_guarded = removes_first(pcfg, adds[0], kp)
+    funcs = [(q, fn) for q, fn in m.functions() if q.startswith(CLS + '.')]
+
+    def sites(name: str):
+        return [(q, fn, c) for q, fn in funcs for c in pf.calls_in(fn, False) if pf.dotted(c.func) == f'self.{name}']
+    n = 0
+    for q, fn, c in sites('_put'):
+        n += 1
+        parts = q.split('.')
+        cons = f'{F}::{q}::{pf.nsrc(c)}'
+        if self_guarded:
+            ctx.ok('R1', cons + '::key absent', '_put removes an existing entry first')
+            continue
+        if len(parts) == 2 and (parts[1] == 'lookup' or _only_from_lookup(m, parts[1], il)):
+            ctx.ok('R1', cons + '::key absent', 'on lookup\'s loader path (analysed inlined)')
+            continue
+        fcfg = pf.cfg(fn)
+        nodes = [x for x in fcfg.nodes if x.ast is not None and any(y is c for y in ast.walk(x.ast)) and x.kind != 'def']
+        key = pf.nsrc(c.args[0]) if c.args else '?'
+        ok = bool(nodes) and all(removes_first(fcfg, x, key) for x in nodes)
+        ctx.check(ok, 'R1', cons + '::key absent', f'`{pf.nsrc(c)}` in {q} can run while `{key}` is still filed in the expiry index: SortedSet.add is a no-op for a member, so the key '
+                  'stays filed under its old expiry while _expiry_time changes; the next _remove/_evict_oldest of it raises, eviction stops working (unbounded growth) and lookups '
+                  'of unrelated keys fail', m.path, c.lineno)
+        if ok and nodes:
+            _capacity_after_puts(ctx, m, q.split('.', 1)[1], fcfg, nodes)
+    ctx.need(n >= 1, '_put is never called')
 
 
 def _r2_fresh(ctx: Ctx, m: pf.Module, cls: ast.ClassDef) -> None:
@@ -211,15 +310,18 @@ def _r2_fresh(ctx: Ctx, m: pf.Module, cls: ast.ClassDef) -> None:
     ctx.need(pf.nsrc(H.ast.value) == f'self._cache[{k}]', f'{cons}: returns a cached value for a different key')  # type: ignore[union-attr]
     # membership test on the expiry map (or cache map) dominating the hit
     exp_src = f'self._expiry_time[{k}]'
-    xs = [t for t in cfg.nodes if t.kind == 'test' and af.mentions(t.ast, exp_src)]
+    # tests are read through single-definition locals (`left = self._expiry_time[k] - time.monotonic_ns(); if left <= 0:`)
+    rexp = {t.id: pf.expand_locals(lk, t.ast) for t in cfg.nodes if t.kind == 'test'}
+    xs = [t for t in cfg.nodes if t.kind == 'test' and af.mentions(rexp[t.id], exp_src)]
     if not xs:
         ctx.bad('R2', cons, 'the cached value is returned without comparing its expiry time with the clock: values older than lifetime_ns are served', m.path, H.lineno)
         af.blocked(ctx, 'R2', 'R2')
         return
     ctx.need(len(xs) == 1, f'lookup: {len(xs)} tests read {exp_src}')
     X = xs[0]
-    cl = [c for c in ast.walk(X.ast) if isinstance(c, ast.Call) and (pf.dotted(c.func) or '').startswith('time.')]
-    ctx.need(len(cl) == 1, f'lookup: expiry test `{pf.nsrc(X.ast)}` does not read exactly one clock')
+    Xe = rexp[X.id]
+    cl = [c for c in ast.walk(Xe) if isinstance(c, ast.Call) and (pf.dotted(c.func) or '').startswith('time.')]
+    ctx.need(len(cl) == 1, f'lookup: expiry test `{pf.nsrc(Xe)}` does not read exactly one clock')
     ctx.check(pf.nsrc(cl[0]) == clock_src, 'R2', f'{F}::{CLS}.lookup::same clock', f'lookup compares the expiry with `{pf.nsrc(cl[0])}` but _put computes it from '
               f'`{clock_src}`: the comparison is meaningless', m.path, X.lineno)
     rms = af.stmt_nodes(cfg, lambda n: (c := af.node_is_call(n, 'self._remove')) is not None and [pf.nsrc(a) for a in c.args] == [k])
@@ -227,16 +329,22 @@ def _r2_fresh(ctx: Ctx, m: pf.Module, cls: ast.ClassDef) -> None:
     for cand in ('T', 'F'):
         if rms and af.must_pass(cfg, X, lambda n: n is H, lambda n: any(n is r for r in rms), first_label=cand) is None and af.direct(cfg, X, rms[0], cand):
             lab = cand
-    consx = f'{F}::{CLS}.lookup::expiry test `{pf.nsrc(X.ast)}`'
+    consx = f'{F}::{CLS}.lookup::expiry test `{pf.nsrc(Xe)}`'
     if lab is None:
         ctx.bad('R2', consx, f'no branch of the expiry test removes the entry before the hit test: an expired value is still returned by `{H.text()}`', m.path, X.lineno)
         af.blocked(ctx, 'R2', 'R2')
         return
     ev = af.TestEval(exp_src, pf.nsrc(cl[0]), [])
-    rows = ev.rows(X.ast)
+    rows = ev.rows(Xe)
     stale = [r for r in rows if r[0] == '<' and r[2] != (lab == 'T')]
     ctx.check(not stale, 'R2', consx, f'an entry whose expiry time is before the current clock value is not removed (branch {lab} removes, but the test is '
               f'{stale[0][2] if stale else ""} for expiry < now): a value older than its lifetime is returned', m.path, X.lineno)
+    if Xe is not X.ast:
+        # the comparison was read through locals: their definitions must not be separated from the test by a suspension
+        defs = [n for n in cfg.nodes if n.kind == 'stmt' and isinstance(n.ast, ast.Assign) and any(isinstance(t2, ast.Name) and t2.id in pf.names_in(X.ast) for t2 in n.ast.targets)]
+        ctx.need(bool(defs), f'{consx}: definitions of the locals not found')
+        st_aw = [x for d in defs for x in af.between(cfg, d, X) if pf.node_has_await(x)]
+        ctx.check(not st_aw, 'R2', consx + '::clock read fresh', f'`{st_aw[0].text() if st_aw else ""}` suspends between reading the clock/expiry into a local and testing it', m.path, X.lineno)
     # every path to the hit evaluates the expiry test, unless the key has no expiry entry at all
     ms = [t for t in cfg.nodes if t.kind == 'test' and pf.nsrc(t.ast) in (f'{k} in self._expiry_time', f'{k} in self._cache', f'{k} in self._keys_by_expiry')
           and af.direct(cfg, t, X, 'T') and cfg.dominated_by(X, lambda n, t=t: n is t)]
@@ -253,24 +361,36 @@ def _r2_fresh(ctx: Ctx, m: pf.Module, cls: ast.ClassDef) -> None:
     ctx.need(bool(g), f'{cons}: not guarded by `{k} in self._cache`')
 
 
-def _r3_single_flight(ctx: Ctx, m: pf.Module, cls: ast.ClassDef) -> None:
+def _r3_single_flight(ctx: Ctx, m: pf.Module, cls: ast.ClassDef, m0: pf.Module, cls0: ast.ClassDef, il) -> None:
     lk = af.method(m, cls, 'lookup')
     cfg = pf.cfg(lk)
     k = [a.arg for a in lk.args.args][1]
     regs = af.stmt_nodes(cfg, lambda n: n.kind == 'stmt' and isinstance(n.ast, ast.Assign) and any(
         isinstance(t, ast.Subscript) and pf.nsrc(t.value) == FUT for t in n.ast.targets))
-    ctx.need(len(regs) == 1, f'lookup: expected one registration `{FUT}[k] = ...`, found {len(regs)}')
-    G = regs[0]
+    ctx.need(len(regs) >= 1, f'lookup: no registration `{FUT}[k] = ...` found')
+    # every call of the loader is the task of a registration analysed below
+    inreg = {id(c) for G in regs for c in ast.walk(G.ast) if isinstance(c, ast.Call)}
+    loads = [c for c in pf.calls_in(lk, True) if pf.dotted(c.func) == 'self.load']
+    free = [c for c in loads if id(c) not in inreg]
+    ctx.check(bool(loads) and not free, 'R3', f'{F}::{CLS}::self.load only as a registered task', f'self.load is called at line {free[0].lineno if free else 0} outside a `{FUT}[k] = '
+              'asyncio.create_task(self.load(k))` registration: that load is not shared with concurrent lookups of the key', m.path, lk.lineno)
+    for st in cls0.body:
+        if isinstance(st, (ast.FunctionDef, ast.AsyncFunctionDef)) and st.name != 'lookup' and not _only_from_lookup(m0, st.name, il):
+            ctx.need(not [c for c in pf.calls_in(st, True) if pf.dotted(c.func) == 'self.load'], f'{CLS}.{st.name} calls self.load outside lookup (not analysed)')
+    for G in regs:
+        _r3_one(ctx, m, lk, cfg, k, G, len(regs))
+
+
+def _r3_one(ctx: Ctx, m: pf.Module, lk: pf.FuncDef, cfg: pf.CFG, k: str, G: pf.Node, nregs: int) -> None:
     cons = f'{F}::{CLS}.lookup::{G.text()}'
     ctx.need(pf.nsrc(G.ast.targets[0].slice) == k, f'{cons}: registers under a different key')  # type: ignore[union-attr]
     val = G.ast.value  # type: ignore[union-attr]
     ok_task = isinstance(val, ast.Call) and pf.dotted(val.func) in ('asyncio.create_task', 'asyncio.ensure_future') and len(val.args) == 1 \
         and isinstance(val.args[0], ast.Call) and pf.dotted(val.args[0].func) == 'self.load' and [pf.nsrc(a) for a in val.args[0].args] == [k]
     ctx.need(ok_task, f'{cons}: registered value is not asyncio.create_task(self.load({k}))')
-    # the only load call in the class
-    loads = [c for st in cls.body if isinstance(st, (ast.FunctionDef, ast.AsyncFunctionDef)) for c in pf.calls_in(st, True) if pf.dotted(c.func) == 'self.load']
-    ctx.check(len(loads) == 1, 'R3', f'{F}::{CLS}::self.load called once', f'self.load is called at {len(loads)} places: a key can be loaded outside the single-flight registration',
-              m.path, lk.lineno)
+    cbs = [c for n in cfg.nodes if n.ast is not None for c in ast.walk(n.ast) if isinstance(c, ast.Call) and isinstance(c.func, ast.Attribute) and c.func.attr == 'add_done_callback'
+           and pf.nsrc(c.func.value).startswith(FUT)]
+    ctx.need(not cbs, f'{cons}: the registered task is completed through add_done_callback (deregistration outside the CFG of lookup: not analysed)')
     # guard: absent-edge of `k in self._futures`, atomically
     tests = [t for t in cfg.nodes if t.kind == 'test' and af.mentions(t.ast, FUT)]
     guard = None
@@ -321,12 +441,14 @@ def _r3_single_flight(ctx: Ctx, m: pf.Module, cls: ast.ClassDef) -> None:
                           'when the loader is cancelled at this await no finally/except removes the registration', m.path, a.lineno)
 
 
-def _r4_shield(ctx: Ctx, m: pf.Module, cls: ast.ClassDef) -> None:
+def _r4_shield(ctx: Ctx, m: pf.Module, cls: ast.ClassDef, m0: pf.Module, il) -> None:
     par = m.parents()
     n = 0
     for st in cls.body:
         if not isinstance(st, (ast.FunctionDef, ast.AsyncFunctionDef)):
             continue
+        if st.name != 'lookup' and _only_from_lookup(m0, st.name, il):
+            continue  # a helper with no other caller: its awaits are judged where they were inlined into lookup
         for a in pf.walk_shallow(st):
             if not isinstance(a, ast.Await):
                 continue
@@ -408,10 +530,15 @@ def run(ctx: Ctx) -> None:
     m = pf.load(F)
     cls = m.cls(CLS)
     ctx.unit('files', 2)
+    # lookup is analysed with its same-class helpers inlined; the primitives the rules speak about stay calls
+    mi, il = inline.inline_methods(m, CLS, 'lookup', exclude=PRIMS)
+    clsi = mi.cls(CLS)
+    ctx.unit('helpers_inlined_into_lookup', len(il.inlined))
     _r1_maps(ctx, m, cls)
-    _r1_capacity(ctx, m, cls)
-    _r2_fresh(ctx, m, cls)
-    _r3_single_flight(ctx, m, cls)
-    _r4_shield(ctx, m, cls)
+    _r1_put_callers(ctx, m, cls, il)
+    _r1_capacity(ctx, mi, clsi)
+    _r2_fresh(ctx, mi, clsi)
+    _r3_single_flight(ctx, mi, clsi, m, cls, il)
+    _r4_shield(ctx, mi, clsi, m, il)
     _r5_auth(ctx)
     ctx.unit('functions', 8)
